@@ -13,26 +13,27 @@ import (
 
 // Solver drives one long-lived `z3 -in` process.
 type Solver struct {
-	bin       string
-	cmd       *exec.Cmd
-	in        io.WriteCloser
-	out       *bufio.Reader
-	declared  map[*Term]bool
-	ufDecl    map[string]bool
-	defined   map[*Term]string
-	ndef      int
-	stack     []*Term // asserted path-condition terms, one push frame each
-	timeoutMs int
-	Queries   int
-	OneShot   int
-	Unknown   int
-	Errors    int
-	Sat       int
-	Unsat     int
-	Time      time.Duration
-	MaxQuery  time.Duration
-	dump      *os.File // optional query log for cross-checking
-	lastErr   string
+	bin         string
+	cmd         *exec.Cmd
+	in          io.WriteCloser
+	out         *bufio.Reader
+	declared    map[*Term]bool
+	ufDecl      map[string]bool
+	defined     map[*Term]string
+	ndef        int
+	ndefAtReset int
+	stack       []*Term // asserted path-condition terms, one push frame each
+	timeoutMs   int
+	Queries     int
+	OneShot     int
+	Unknown     int
+	Errors      int
+	Sat         int
+	Unsat       int
+	Time        time.Duration
+	MaxQuery    time.Duration
+	dump        *os.File // optional query log for cross-checking
+	lastErr     string
 }
 
 func NewSolver(bin string, timeoutMs int) *Solver {
@@ -237,6 +238,15 @@ func (s *Solver) Check(pc []*Term, c *Term, vars []*Term) (res int, model Model)
 	}()
 	if anyFP(pc, c) {
 		return s.oneShot(pc, c, vars)
+	}
+	if s.ndef-s.ndefAtReset > 4000 {
+		// global definitions accumulate across paths and slow the solver down: start afresh
+		s.send("(reset)\n")
+		s.declared, s.ufDecl = map[*Term]bool{}, map[string]bool{}
+		s.defined = map[*Term]string{}
+		s.stack = nil
+		s.ndefAtReset = s.ndef
+		s.preamble()
 	}
 	s.sync(pc)
 	var sb strings.Builder
